@@ -34,11 +34,11 @@ class Report:
 
     # ---- recording ------------------------------------------------------------------
     def ok(self, rule, key, detail=None, nontrivial=True, at="", fn=""):
-        self.obligations.append(dict(rule=rule, key=key, status="discharged", detail=detail, nontrivial=nontrivial, at=at, fn=fn, why=""))
+        self.obligations.append(dict(rule=rule, key=key, status="discharged", detail=detail, nontrivial=nontrivial, at=at, fn=fn, why="", pack=getattr(self, "pack", None)))
 
     def fail(self, rule, key, why, status="refuted", at="", fn="", detail=None):
         assert status in ("refuted", "undecided")
-        self.obligations.append(dict(rule=rule, key=key, status=status, why=why, at=at, fn=fn, detail=detail, nontrivial=True))
+        self.obligations.append(dict(rule=rule, key=key, status=status, why=why, at=at, fn=fn, detail=detail, nontrivial=True, pack=getattr(self, "pack", None)))
 
     def check(self, cond, rule, key, why, at="", fn="", detail=None, status="refuted", nontrivial=True):
         if cond:
@@ -66,6 +66,15 @@ class Report:
     # ---- finishing ------------------------------------------------------------------
     def finish(self, level, explanation, trusted_base, checker_cmd):
         pid = self.pid
+        # a rule pack shared between properties may run twice inside one check: one obligation per (rule, key, status)
+        uniq, seen_o = [], {}
+        for o in self.obligations:
+            k_ = (o["rule"], o["key"], o["status"])
+            if k_ in seen_o and seen_o[k_] != o.get("pack"):
+                continue
+            seen_o.setdefault(k_, o.get("pack"))
+            uniq.append(o)
+        self.obligations = uniq
         viol = []
         known_hit = []
         seen_keys = set()
